@@ -285,10 +285,39 @@ def gen_case(rng, oper=None):
     return case
 
 
+def gen_double_fault(rng):
+    """Two exception positions at once: the inner source terminates (mostly with on_error) AND the operator callback
+    that handles exactly that notification raises.  The callback's invocation index is computed from the timeline."""
+    oper = rng.choice(["do_action", "do_action", "do", "do_on_terminate", "do_after_terminate", "do_finally", "finally_action",
+                       "do_after_next", "do_on_dispose"])
+    case = gen_case(rng, oper)
+    case["sub_raises"] = [] if rng.random() < 0.8 else case["sub_raises"]
+    case["srcd_raises"] = False
+    nn = rng.choice([0, 0, 1, 2])
+    term = ["E", f"s{rng.randrange(3)}"] if rng.random() < 0.8 else ["C"]
+    notifs = [["N", enc(rng.choice(VALS))] for _ in range(nn)] + [term]
+    case["sync"], case["sync_exn"], case["sync_prop"] = [], None, False
+    if rng.random() < 0.2:          # the whole timeline inside subscribe
+        case["sync"], case["msgs"] = notifs, []
+    else:
+        t0 = case["t_sub"] + 10 if case["src"] == "hot" else 10
+        case["msgs"] = [[t0 + 10 * i, n] for i, n in enumerate(notifs)]
+    case["disposes"] = [] if rng.random() < 0.7 else [case["t_sub"] + 400]
+    has = case["has"] = [True, True, True] if oper != "do_action" else [rng.random() < 0.6, True, True]
+    if oper in ("do_action", "do"):
+        k = nn if has[0] else 0     # on_next callbacks ran nn times before the terminal callback
+    elif oper == "do_after_next":
+        k = max(nn - 1, 0)          # the last after_next call
+    else:
+        k = 0                       # the terminal / finally / dispose hook is the operator's only callback
+    case["act_raises"] = [k]
+    return case
+
+
 def cases(rng, tier):
     n = fw.tier_scale(tier, 12000, 120000)
-    for _ in range(n):
-        yield gen_case(rng)
+    for i in range(n):
+        yield gen_double_fault(rng) if i % 8 == 7 else gen_case(rng)
 
 
 def using_fails(case):
@@ -359,6 +388,24 @@ def oracle(case, out):
     over = bool(ends)
     t_over = min(ends) if ends else None
     act_raised = any(e[0] == "act" and e[-1] is True and e[1] not in ("resf", "obsf") for _, e in log)
+
+    # -- which exception arrives downstream (property: "... without changing the sequence unless a callback raises"):
+    # error identities are distinct per position — source "s*"/"x*", k-th operator-callback invocation "act<k>",
+    # k-th subscriber callback "cb<k>", factories "resf"/"obsf", inner dispose "srcd".  When an operator callback
+    # raises, whatever is delivered to the subscriber afterwards is exactly one on_error carrying THAT callback's
+    # exception (or nothing, if the subscriber was already stopped/disposed) — never the source's own error as though
+    # the callback had succeeded, never further elements.
+    k = 0
+    for i, (t, e) in enumerate(log):
+        if e[0] != "act":
+            continue
+        ident = e[1] if e[1] in ("resf", "obsf") else f"act{k}"
+        if e[1] not in ("resf", "obsf"):
+            k += 1
+        if e[-1] is True:
+            later = [x[1] for x in log[i + 1:] if x[1][0] in ("N", "E", "C")]
+            if later and not (len(later) == 1 and later[0][0] == "E" and later[0][1] == ident):
+                return f"callback {e[1]} raised {ident} at {t} but downstream then received {later}"
 
     if oper == "using":
         n = sum(1 for _, e in log if e == ["resD"])
@@ -642,7 +689,10 @@ RULE = ("one subscription of using / finally_action / do_finally / do_action(any
         "CompositeDisposable filled by the observable factory) / None / raises, observable factory raises (throw on the "
         "ImmediateScheduler or on the TestScheduler). The full timed effect log (deliveries with raised flag, every operator "
         "callback with argument, resource.dispose, source-subscription dispose, exceptions escaping to emitter/caller) of the real "
-        "code is compared with the Lean model; fault position 'dispose() of the inner source's subscription raises' on 30% of the "
+        "code is compared with the Lean model; every exception position has its own identity (source s*/x*, k-th operator callback "
+        "act<k>, k-th subscriber callback cb<k>, factories, inner dispose) and the oracle checks which one arrives downstream; one case "
+        "in eight is a targeted double fault (the source terminates, mostly with on_error, and the callback handling exactly that "
+        "notification raises); fault position 'dispose() of the inner source's subscription raises' on 30% of the "
         "finally_action/do_finally/do_on_dispose cases and 10% of the other do_* cases; the model is fed the statically merged same-instant event order; non-trivial = a terminal was "
         "delivered, something was disposed, an exception escaped or an operator callback ran")
 ASSUMPTIONS = [
